@@ -10,8 +10,8 @@ from harness.terms import jkey
 
 CLAUSES = {
     "C01": {"roundtrip", "build"},
-    "C02": {"wire", "encode-raises", "json-dumps", "not-basic"},
-    "C03": {"decode", "decode-accepts", "decode-rejects", "ill-typed"},
+    "C02": {"wire", "encode-raises", "json-dumps", "not-basic", "build"},
+    "C03": {"decode", "decode-accepts", "decode-rejects", "ill-typed", "build"},
 }
 MODEL_INVARIANTS = {"C01": "RoundTrip", "C02": "BasicForm", "C03": "WellTyped"}
 
